@@ -47,6 +47,7 @@ class Program:
         self.fns = fns
         self.known = known_names          # short names of functions the baseline has (not inlined: specs know them) ...
         self.other_keys = other_keys      # ... unless the program it is compared with has no such function (helper renamed / moved)
+        self.aggressive = False           # second attempt of `equivalent`: inline every crate-local callee that resolves
         self.by_closure = {}
         self.by_short = {}
         for f in fns:
@@ -70,10 +71,15 @@ class Program:
             if not re.match(r'^\w+$', last):
                 return None
             cands = [f for f in cands if re.search(r'(?<![\w])%s(?![\w])' % re.escape(last), f.impl_header + ' ' + f.name)]
+        if len(cands) > 1 and not callee.startswith('<'):
+            # `Type::method` (no `<T as Trait>`): an inherent method wins over trait impls of the same name
+            inh = [f for f in cands if not re.search(r'^\S+: impl(<.*?>)? [^{]* for ', f.impl_header or '')]
+            if len(inh) == 1:
+                cands = inh
         if len(cands) != 1:
             return None
         f = cands[0]
-        if name in self.known and (self.other_keys is None or fn_key(f) in self.other_keys):
+        if name in self.known and not self.aggressive and (self.other_keys is None or fn_key(f) in self.other_keys):
             return None
         return f
 
@@ -108,10 +114,22 @@ class CanonExec(M.Exec):
         e = Event(callee, [to_term(x) for x in argv], res, argv)
         e.snap = [self.render(x, st) for x in argv]
         e.local_ref = [isinstance(x, Ref) and x.place.base[0] == 'L' for x in argv]
+        e.closure_beh = {}
+        for i, x in enumerate(argv):
+            if isinstance(x, Agg) and x.kind.startswith('closure@'):
+                cfn = self.program.by_closure.get(closure_loc(x.kind))
+                if cfn is not None:
+                    e.closure_beh[i] = closure_behaviour(cfn, x, self.program, self.stats, st, e.snap[i], self.params)
         # an uninterpreted callee may write through a `&mut local`: afterwards the local holds "what that call left there"
         for i, x in enumerate(argv):
             if isinstance(x, Ref) and getattr(x, 'mut', False) and x.place.base[0] == 'L':
                 self.write(x.place, T(M.mk_fn('left_by', 2)(res, M.cst_term('arg%d' % i))), st)
+            elif isinstance(x, Agg) and x.kind.startswith('closure@'):
+                # ... and so may a closure it is handed, through what that closure captured by `&mut`
+                for j, fv in enumerate(x.fields):
+                    if isinstance(fv, Ref) and getattr(fv, 'mut', False) and fv.place.base[0] == 'L':
+                        nm = x.names[j] if x.names and j < len(x.names) else 'cap%d' % j
+                        self.write(fv.place, T(M.mk_fn('left_by', 2)(res, M.cst_term('arg%d.%s' % (i, nm)))), st)
         return e
 
     # ---- helpers
@@ -220,6 +238,16 @@ class CanonExec(M.Exec):
         # Deref / DerefMut of the sequence containers: identity on the reference
         if re.match(r"^<(Vec|SmallVec|ArrayVec|smallvec::SmallVec|arrayvec::ArrayVec)<.*> as (std::ops::)?Deref(Mut)?>::deref(_mut)?$", c) and len(argv) == 1:
             return [(st, argv[0])]
+        # Deref / DerefMut of std smart pointers and lock guards: a pure accessor, the same target for both spellings
+        if re.match(r"^<(std::sync::)?(Arc|Rc|Box|RwLockReadGuard|RwLockWriteGuard|MutexGuard|std::sync::RwLockReadGuard|std::sync::RwLockWriteGuard|std::sync::MutexGuard)<.*> as (std::ops::)?Deref(Mut)?>::deref(_mut)?$", c) and len(argv) == 1:
+            x = argv[0]
+            try:
+                if isinstance(x, Ref):
+                    inner = self.read(x.place, st)
+                    x = inner if isinstance(inner, (T, Cst)) else x
+            except Exception:
+                pass
+            return [(st, T(M.mk_fn('target', 1)(to_term(x))))]
         # creating a slice iterator, however it is spelt
         if len(argv) == 1 and (re.match(r"^<&(mut )?(Vec|SmallVec|ArrayVec|smallvec::SmallVec|arrayvec::ArrayVec|\[).*as IntoIterator>::into_iter$", c)
                                or re.match(r"^(core|std)::slice::<impl \[.*\]>::iter(_mut)?$", c)):
@@ -235,7 +263,7 @@ class CanonExec(M.Exec):
         if re.search(r" as Iterator>::next$", c) and len(argv) == 1 and isinstance(argv[0], Ref):
             v = self.read(argv[0].place, st)
             res = M.fresh('ret')
-            key = to_term(v) if isinstance(v, T) else to_term(argv[0])
+            key = to_term(v) if isinstance(v, (T, Agg)) else to_term(argv[0])
             st.trace.append(Event(c, [key], res, argv))
             return [(st, T(res))]
         # for_each = loop { match next() { Some(x) => f(x), None => break } }
@@ -267,9 +295,9 @@ class CanonExec(M.Exec):
             return [(st, T(M.f_fld(M.id_of(m.group(1)), 0)))]
         # is_some / is_none / is_ok / is_err: the branch a `match` on the receiver takes
         m = re.match(r"^(Option|Result)::<.*?>::(is_some|is_none|is_ok|is_err)$", c)
-        if m and len(argv) == 1 and isinstance(argv[0], Ref):
+        if m and len(argv) == 1:
             try:
-                v = self.read(argv[0].place, st)
+                v = self.read(self.deref_place(argv[0]), st)
             except Exception:
                 v = None
             if v is not None:
@@ -281,6 +309,25 @@ class CanonExec(M.Exec):
                     out.append((sy, Cst('true' if pos else 'false')))
                 if sn is not None:
                     out.append((sn, Cst('false' if pos else 'true')))
+                return out
+        # Option::get_or_insert_with(&mut opt, f): keeps a value that is there, otherwise stores Some(f())
+        m = re.match(r"^Option::<.*?>::get_or_insert_with::<.*>$", c)
+        if m and len(argv) == 2:
+            try:
+                pl = self.deref_place(argv[0])
+                cur = self.read(pl, st)
+            except Exception:
+                pl = None
+            if pl is not None:
+                sy, _py, sn, _pn = self.split(cur, st, 'Some', 'None')
+                payload = Place(pl.base, pl.path + (('V', 'Some'), 0))
+                out = []
+                if sy is not None:
+                    out.append((sy, Ref(payload, True)))
+                if sn is not None:
+                    for s2, v in self.apply(argv[1], [], sn, done):
+                        self.write(pl, Agg('variant Option', [v], 'Some'), s2)
+                        out.append((s2, Ref(payload, True)))
                 return out
         m = re.match(r"^(Option|Result)::<.*?>::(map|and_then|unwrap_or_else|map_or_else|unwrap_or|ok|ok_or|unwrap|expect|is_some|is_none)(::<.*>)?$", c)
         if m and argv:
@@ -409,13 +456,80 @@ def closure_sig(fn, program, stats):
     return _closure_sigs[k]
 
 
-def _arg_text(term, val, program, stats):
-    """closures handed to uninterpreted callees are part of the behaviour: render them by the hash of their own summary"""
+_closure_runs = {}
+CLOSURE_DEPTH = [0]
+
+
+def closure_behaviour(fn, val, program, stats, st=None, snap='', params=None):
+    """What a closure handed to an uninterpreted callee does, given the values it captured and the state at the time
+    of the call (captured references are read there): the raw (not yet alpha-renamed) path texts of its body run with
+    its environment bound to `val`, in a canonical order. Capture order, and whether the body sits in the closure or
+    in a helper it calls, do not show."""
+    try:
+        key = (id(fn), str(to_term(val)), snap)
+    except Exception:
+        return None
+    if key in _closure_runs:
+        return _closure_runs[key]
+    if CLOSURE_DEPTH[0] >= 3:
+        return None
+    CLOSURE_DEPTH[0] += 1
+    try:
+        loc, ty = fn.params[0]
+        st0 = st.fork() if st is not None else M.PathState()
+        n_t, n_d = len(st0.trace), len(st0.decisions)
+        st0.visits = {}
+        ex = CanonExec(fn, program, stats=stats, frame='c%d:' % CLOSURE_DEPTH[0], depth=1)
+        for k_, v_ in (params or {}).items():       # parameters of the enclosing function stay readable through captured references
+            ex.params.setdefault(k_, v_)
+        if ty.startswith('&'):
+            tmp = Place(('L', 'c%d:env' % CLOSURE_DEPTH[0]))
+            ex.write(tmp, val, st0)
+            ex.params[ex.frame + loc] = Ref(tmp)
+        else:
+            ex.params[ex.frame + loc] = val
+        # the closure's own arguments: fresh symbols named by position
+        for i, (l2, _t2) in enumerate(fn.params[1:]):
+            ex.params[ex.frame + l2] = T(z3.Const('carg%d' % (i + 1), V))
+        outs = ex.run(st0)
+        paths = []
+        for o in outs:
+            if o.kind == 'bound':
+                continue
+            raw = path_signature(o, program, stats, raw=True, skip=(n_t, n_d))
+            if fn.ret.strip() == '()' and raw.startswith('return'):
+                raw = re.sub(r'\|[^|]*$', '|', raw)
+            # what the body leaves in the variables it captured by `&mut`
+            eff = []
+            for fv in val.fields:
+                if isinstance(fv, Ref) and getattr(fv, 'mut', False) and fv.place.base[0] == 'L':
+                    try:
+                        eff.append('captured:=' + str(to_term(ex.read(fv.place, o.st))).replace('\n', ' '))
+                    except Exception:
+                        eff.append('captured:=?')
+            raw += '|' + ' ; '.join(sorted(eff))
+            paths.append((_rename(raw, {}), raw))
+        paths.sort()
+        res = ' || '.join(r for _k, r in paths)
+    except Exception:
+        res = None
+    CLOSURE_DEPTH[0] -= 1
+    _closure_runs[key] = res
+    return res
+
+
+def _arg_text(term, val, program, stats, beh=None, st=None):
+    """closures handed to uninterpreted callees are part of the behaviour: render them by what their body does"""
     extra = ''
     if program is not None:
         loc = None
         if isinstance(val, Agg) and val.kind.startswith('closure@'):
             loc = closure_loc(val.kind)
+            if loc in program.by_closure:
+                if beh is None and st is not None:
+                    beh = closure_behaviour(program.by_closure[loc], val, program, stats, st)
+                if beh is not None:
+                    return 'closure[[%s]]' % beh
         elif isinstance(val, Cst) and '{closure@' in val.text:
             mloc = re.search(r'\{closure@([^}]*)\}', val.text)
             loc = re.sub(r': \d+:\d+$', '', mloc.group(1)) if mloc else None
@@ -426,39 +540,42 @@ def _arg_text(term, val, program, stats):
     return str(term).replace('\n', ' ') + extra
 
 
-def path_signature(o, program=None, stats=None):
+def path_signature(o, program=None, stats=None, raw=False, skip=(0, 0)):
     table = {}
+    ren = (lambda t, tb: t) if raw else _rename
     parts = []
-    for e in o.trace:
+    for e in o.trace[skip[0]:]:
         if NOISE.search(e.callee) or e.callee == 'ITER_DROP':
             continue
         vals = list(e.argvals) + [None] * (len(e.args) - len(e.argvals))
         snap = getattr(e, 'snap', None)
         texts = []
         for i, (a, v) in enumerate(zip(e.args, vals)):
-            t = _arg_text(a, v, program, stats)
-            if snap is not None and i < len(snap) and snap[i] != str(a).replace('\n', ' '):
+            t = _arg_text(a, v, program, stats, getattr(e, 'closure_beh', {}).get(i))
+            if t.startswith('closure[['):
+                pass                         # the behaviour on the captured values says it all
+            elif snap is not None and i < len(snap) and snap[i] != str(a).replace('\n', ' '):
                 lr = getattr(e, 'local_ref', None)
                 if lr and i < len(lr) and lr[i] and snap[i].startswith('ref{'):
                     t = snap[i]              # which local holds the value is a coding detail
                 else:
                     t += '=' + snap[i]
-            texts.append(_rename(t, table))
-        parts.append('%s(%s)' % (_rename(re.sub(r"'\w+", "'_", e.callee), table), ', '.join(texts)))
-    dec = ['%s=%s' % (_rename(w.replace('\n', ' '), table), k) for w, k in o.st.decisions]
+            texts.append(ren(t, table))
+        parts.append('%s(%s)' % (ren(re.sub(r"'\w+", "'_", e.callee), table), ', '.join(texts)))
+    dec = ['%s=%s' % (ren(w.replace('\n', ' '), table), k) for w, k in o.st.decisions[skip[1]:]]
     heap = []
     for key, slots in sorted(o.st.store.items()):
         if key[0] != 'H':
             continue
         for pth, v in sorted(slots.items(), key=lambda kv: str(kv[0])):
             try:
-                heap.append('%s%s:=%s' % (_rename(key[1], table), pth, _rename(str(to_term(v)).replace('\n', ' '), table)))
+                heap.append('%s%s:=%s' % (ren(key[1], table), pth, ren(str(to_term(v)).replace('\n', ' '), table)))
             except Exception:
                 heap.append('%s%s:=?' % (key[1], pth))
     val = ''
     if o.kind == 'return' and o.value is not None:
         try:
-            val = _rename(str(to_term(o.value)).replace('\n', ' '), table)
+            val = ren(_arg_text(to_term(o.value), o.value, program, stats, None, o.st).replace('\n', ' '), table)
         except Exception:
             val = repr(o.value)
     detail = 'panic' if (o.kind == 'diverge') else o.detail if o.kind == 'bound' else ''
@@ -474,10 +591,28 @@ def summary(fn, program, stats):
 
 
 def equivalent(cur, cur_prog, base, base_prog, stats):
-    """True iff the canonical summaries are equal. Unsupported constructs => False (no claim)."""
+    """True iff the canonical summaries are equal. Unsupported constructs => False (no claim).
+    Second attempt when they differ: inline every crate-local callee on both sides (a method that now delegates to a
+    sibling the baseline also has is then compared by what the sibling does)."""
     try:
         a = summary(cur, cur_prog, stats)
         b = summary(base, base_prog, stats)
     except Exception:
         return False, None, None
-    return a == b and len(a) > 0, a, b
+    if a == b and len(a) > 0:
+        return True, a, b
+    saved = dict(_closure_runs), dict(_closure_sigs)
+    try:
+        cur_prog.aggressive = base_prog.aggressive = True
+        _closure_runs.clear(); _closure_sigs.clear()
+        a2 = summary(cur, cur_prog, stats)
+        b2 = summary(base, base_prog, stats)
+        if a2 == b2 and len(a2) > 0:
+            return True, a2, b2
+    except Exception:
+        pass
+    finally:
+        cur_prog.aggressive = base_prog.aggressive = False
+        _closure_runs.clear(); _closure_sigs.clear()
+        _closure_runs.update(saved[0]); _closure_sigs.update(saved[1])
+    return False, a, b
